@@ -148,6 +148,14 @@ func (pq *PrefetchQueue) processPrefetch(req PrefetchRequest) {
 	// from the copy (it is the cache key and the validation opt-out).
 	if opt := prefetchReq.IsEdns0(); opt != nil {
 		opt.SetDo(true)
+		// Only shared (SCOPE 0) entries are refreshed, and what comes back
+		// replaces the entry under the shared key, for every audience. The
+		// trigger's client-subnet option (already clamped by edns on the way
+		// in) must not ride along: an authority that tailors its answer to
+		// that subnet would hand back one audience's answer, and edns in the
+		// sub-pipeline re-attaches the option whenever the ECS policy admits
+		// the internal writer's address (an empty client_networks list does).
+		opt.Option = stripClientSubnet(opt.Option)
 	} else {
 		prefetchReq.SetEdns0(dnsutil.DefaultMsgSize, true)
 	}
@@ -243,4 +251,16 @@ func releasePrefetchClaim(entry *CacheEntry) {
 	if entry != nil {
 		entry.prefetch.Store(false)
 	}
+}
+
+// stripClientSubnet returns opts without any EDNS0_SUBNET option.
+func stripClientSubnet(opts []dns.EDNS0) []dns.EDNS0 {
+	kept := opts[:0:0]
+	for _, o := range opts {
+		if _, ok := o.(*dns.EDNS0_SUBNET); ok {
+			continue
+		}
+		kept = append(kept, o)
+	}
+	return kept
 }
